@@ -116,9 +116,9 @@ def run(ctx):
         contacted2 = any(e['e'] == 'Fwd' and e['id'] == 2 for e in ev)
         got = 'contact' if contacted2 else 'hit'
         hits += (got == 'hit')
-        if got != s['pred'] and len(ctx.drift) < 5:
+        if s['pred'] != 'any' and got != s['pred'] and len(ctx.drift) < 5:
             ctx.drift.append('FreshnessScen predicts %s, squid did %s for %s' % (s['pred'], got, json.dumps(s['par'])))
-    ctx.cov['drift_total'] = sum(1 for s, ev in out if ('contact' if any(e['e'] == 'Fwd' and e['id'] == 2 for e in ev) else 'hit') != s['pred'])
+    ctx.cov['drift_total'] = sum(1 for s, ev in out if s['pred'] != 'any' and ('contact' if any(e['e'] == 'Fwd' and e['id'] == 2 for e in ev) else 'hit') != s['pred'])
     ctx.cov['impl_distinct'] = len({json.dumps(s['par'], sort_keys=True) for s, _ in out})
     ctx.cov['served_from_cache'] = hits
     ctx.cov['origin_contacted'] = len(out) - hits
